@@ -8,7 +8,7 @@ require (
 	github.com/youzan/go-zanredisdb v0.6.3
 )
 
-replace github.com/youzan/ZanRedisDB => /repo
+replace github.com/youzan/ZanRedisDB => /tmp/sv-C16-7793
 
 replace github.com/youzan/gorocksdb => /verif/build/third_party/gorocksdb
 
